@@ -8,6 +8,7 @@ import (
 	"go/token"
 	"go/types"
 	"sort"
+	"strconv"
 	"strings"
 
 	"golang.org/x/tools/go/ssa"
@@ -1062,7 +1063,6 @@ func rulePXRenderItems(c *Ctx) []Obligation {
 	return o.list
 }
 
-
 // ---------------------------------------------------------------------------------------------
 // P-ISNULL
 
@@ -1326,4 +1326,732 @@ func rulePXIsNull(c *Ctx) []Obligation {
 	}
 	// ---- Null() / Empty(): checked with the other constructors (P-LITCTOR)
 	return o.list
+}
+
+// ---------------------------------------------------------------------------------------------
+// T-LITFMT / P-TOKEN on paths of token.render (helpers such as an extracted formatLiteral inlined)
+
+func contentTerm(t *T) bool {
+	if t == nil {
+		return false
+	}
+	s := t.String()
+	if s == "recv.content" {
+		return true
+	}
+	return t.Op == "assert" && len(t.A) == 1 && t.A[0].String() == "recv.content"
+}
+
+// litSegsOK: the output template of a literal of type typ.
+func litSegsOK(typ string, segs []pseg) (ok bool, why string, bare bool) {
+	valOK := func(s pseg) (bool, string) {
+		if s.Val == nil {
+			return false, "no value"
+		}
+		if !contentTerm(s.Val) {
+			return false, "the value printed is " + s.Val.String() + ", not the token's content"
+		}
+		vb := s.Verb
+		if typ == "string" && vb == "q" {
+			return true, ""
+		}
+		if !valueVerbOK(typ, vb) && !(vb == "x" && strings.HasPrefix(typ, "uint")) {
+			return false, "verb %" + vb + " does not print a Go constant of type " + typ
+		}
+		if s.Bits != 0 {
+			want := map[string]int{"float64": 64, "float32": 32, "complex128": 128, "complex64": 64}[typ]
+			if want != 0 && s.Bits != want {
+				return false, fmt.Sprintf("formatted with bit size %d, the type needs %d (digits would be dropped)", s.Bits, want)
+			}
+		}
+		return true, ""
+	}
+	isT := func(s pseg) bool { return s.Val != nil && s.Verb == "T" && contentTerm(s.Val) }
+	switch len(segs) {
+	case 1:
+		if ok, why := valOK(segs[0]); !ok {
+			return false, why, true
+		}
+		if !defaultTypes[typ] {
+			return false, "a bare constant has the default type of its kind, not " + typ + ": the value must be wrapped in a conversion", true
+		}
+		return true, "bare, default type", true
+	case 2:
+		if isT(segs[0]) || (segs[0].Val == nil && segs[0].Lit == typ) {
+			if !strings.HasPrefix(typ, "complex") {
+				return false, "conversion without parentheses", false
+			}
+			ok, why := valOK(segs[1])
+			return ok, why, false
+		}
+	case 3:
+		if segs[0].Val == nil && (segs[0].Lit == typ+"(" || (segs[0].Lit == typ+"(0x" && segs[1].Verb == "x")) && segs[2].Val == nil && segs[2].Lit == ")" {
+			ok, why := valOK(segs[1])
+			return ok, why, false
+		}
+	case 4:
+		if isT(segs[0]) && segs[1].Val == nil && segs[1].Lit == "(" && segs[3].Val == nil && segs[3].Lit == ")" {
+			ok, why := valOK(segs[2])
+			return ok, why, false
+		}
+	}
+	return false, "the text is not a single Go constant of type " + typ + " (bare or TYPE(value))", false
+}
+
+func rulePXTokenRender(c *Ctx, part string) []Obligation {
+	o := c.newObs(part)
+	f := c.implOf(c.renderName(), "jen.token")
+	if f == nil {
+		o.undecided("(jen.token).render", "anchor", token.NoPos, "anchor lost")
+		return o.list
+	}
+	fn := fname(f)
+	reg := c.registerFn()
+	paths, trunc := c.Paths(f, PXConfig{SkipErrEdges: true, Opaque: c.stdOpaque()})
+	if trunc || len(paths) == 0 {
+		o.undecided(fn, "path enumeration", f.Pos(), "%d paths, truncated %v", len(paths), trunc)
+		return o.list
+	}
+	t := newTally(o, fn, f.Pos())
+	tt := func(n string) string { return c.tokenTypeConst(n) }
+	covered := map[string]bool{}
+	for _, p := range paths {
+		F := p.Facts
+		typ := ""
+		for atom, pol := range F {
+			if pol && strings.HasPrefix(atom, `eq("`) && strings.HasSuffix(atom, `",recv.typ)`) {
+				typ = atom[4 : len(atom)-len(`",recv.typ)`)]
+			}
+		}
+		lt := ""
+		for atom, pol := range F {
+			if pol && strings.HasPrefix(atom, "is<") && strings.HasSuffix(atom, ">(recv.content)") {
+				lt = atom[3 : len(atom)-len(">(recv.content)")]
+			}
+		}
+		isLit := typ == tt("literalToken")
+		if p.End == "panic" {
+			if part != "T-LITFMT" {
+				continue
+			}
+			// only the documented one: a literal whose type is none of the 17
+			refuted := 0
+			for _, dt := range documentedLitTypes {
+				if F.Has("is<"+dt+">(recv.content)", false) {
+					refuted++
+				}
+			}
+			pe := p.Events[len(p.Events)-1]
+			if pe.Kind == "panic" {
+				t.note("the only panic is the documented one for an unsupported literal type", isLit && refuted == len(documentedLitTypes), "path %s panics with %v (token type %q, %d of 17 types refuted)", traceOf(p), pe.Args, typ, refuted)
+			}
+			continue
+		}
+		if !successPath(p) {
+			continue
+		}
+		out, other := pathOutput(p, "p1")
+		if len(other) > 0 {
+			t.note("writes go to the writer parameter", false, "path %s writes to %v", traceOf(p), other)
+			continue
+		}
+		nreg := 0
+		var regEv *Ev
+		for i, e := range p.Events {
+			if e.Kind == "call" && e.Fn == reg {
+				nreg++
+				regEv = &p.Events[i]
+			}
+			if e.Kind == "store" || e.Kind == "mapupdate" {
+				t.note("rendering a token stores nothing", false, "path %s stores to %s", traceOf(p), e.Recv)
+			}
+		}
+		switch {
+		case isLit:
+			if part != "T-LITFMT" {
+				continue
+			}
+			if lt == "" {
+				t.note("every literal path knows the content's type", false, "path %s writes %s without a type test (facts %s)", traceOf(p), segsString(out), F)
+				continue
+			}
+			covered[lt] = true
+			base := out
+			suffix := ""
+			if n := len(out); n >= 2 && out[n-1].Val == nil && out[n-2].Val != nil && lt == "float64" {
+				suffix = out[n-1].Lit
+				base = out[:n-1]
+			}
+			ok, why, bare := litSegsOK(lt, base)
+			t.note("literal of type "+lt+" is written as a Go constant of that type, formatted from the unmodified content", ok, "path %s writes %s: %s", traceOf(p), segsString(out), why)
+			if lt == "float64" && bare && ok {
+				// the text that was tested must be the text that is written
+				text := ""
+				for atom := range F {
+					for _, fnm := range []string{"strings.Contains", "strings.ContainsAny", "strings.ContainsRune", "strings.IndexByte"} {
+						if cc := condCall(p.Terms[atom], fnm); cc != nil && len(cc.A) == 2 && segsString(termTemplate(cc.A[0])) == segsString(base) {
+							text = cc.A[0].String()
+						}
+					}
+				}
+				il, nil_, unk := floatGuard(F, text)
+				switch suffix {
+				case ".0":
+					t.note("float64: \".0\" is appended only if the text has neither '.' nor 'e'", text != "" && il && len(unk) == 0, "path %s (unrecognised tests %v; facts %s)", traceOf(p), unk, F)
+				case "":
+					t.note("float64: the bare text is written only if it has a '.' or an 'e'", text != "" && nil_ && len(unk) == 0, "path %s: an integral float64 without \".0\" is read back as an int; a test other than for \".\" / \"e\" (e.g. \"e+\") lets 1e-07 through (unrecognised tests %v; facts %s)", traceOf(p), unk, F)
+				default:
+					t.note("float64: nothing but \".0\" is appended", false, "path %s appends %q", traceOf(p), suffix)
+				}
+			}
+		case typ == tt("literalRuneToken"):
+			if part != "T-LITFMT" {
+				continue
+			}
+			ok := len(out) == 1 && out[0].Val != nil && (out[0].Verb == "qr" || out[0].Verb == "q" || out[0].Verb == "+q") && contentTerm(out[0].Val)
+			t.note("a rune literal is the content quoted by strconv.QuoteRune* / %q", ok, "path %s writes %s", traceOf(p), segsString(out))
+		case typ == tt("literalByteToken"):
+			if part != "T-LITFMT" {
+				continue
+			}
+			ok, why, _ := litSegsOK("uint8", out)
+			if !ok && len(out) == 3 && out[0].Val == nil && (out[0].Lit == "byte(" || (out[0].Lit == "byte(0x" && out[1].Verb == "x")) && out[2].Lit == ")" && out[1].Val != nil && contentTerm(out[1].Val) {
+				vb := out[1].Verb
+				ok = valueVerbOK("uint8", vb) || vb == "q" || vb == "x"
+			}
+			t.note("a byte literal is byte(<numeric or quoted value of the content>)", ok, "path %s writes %s (%s)", traceOf(p), segsString(out), why)
+		case typ == tt("keywordToken") || typ == tt("operatorToken") || typ == tt("layoutToken") || typ == tt("delimiterToken"):
+			if part != "P-TOKEN" {
+				continue
+			}
+			d3 := [2]bool{}
+			for atom, pol := range F {
+				if strings.HasPrefix(atom, `eq("default",`) && strings.Contains(atom, "recv.content") {
+					d3 = [2]bool{pol, true}
+				}
+			}
+			want := []xseg{{verb: "s", val: ""}}
+			okOut := len(out) >= 1 && out[0].Val != nil && (out[0].Verb == "s" || out[0].Verb == "v") && contentTerm(out[0].Val)
+			_ = want
+			if !d3[1] {
+				t.note(typ+" token: every path decides whether the text is `default`", false, "path %s writes %s (facts %s)", traceOf(p), segsString(out), F)
+				continue
+			}
+			if d3[0] {
+				t.note("`default` is written followed by a colon", okOut && len(out) == 2 && out[1].Val == nil && out[1].Lit == ":", "path %s writes %s", traceOf(p), segsString(out))
+			} else {
+				t.note(typ+" token writes exactly its text", okOut && len(out) == 1, "path %s writes %s", traceOf(p), segsString(out))
+			}
+		case typ == tt("identifierToken"):
+			if part != "P-TOKEN" {
+				continue
+			}
+			t.note("an identifier token writes exactly its name", len(out) == 1 && out[0].Val != nil && (out[0].Verb == "s" || out[0].Verb == "v") && contentTerm(out[0].Val), "path %s writes %s", traceOf(p), segsString(out))
+		case typ == tt("packageToken"):
+			if part != "P-TOKEN" {
+				continue
+			}
+			ok := nreg == 1 && len(out) == 1 && out[0].Val != nil && out[0].Val.String() == regEv.Res.String() && len(regEv.Args) == 2 && regEv.Args[0].String() == "p0" && contentTerm(regEv.Args[1])
+			t.note("a package token writes exactly what the registration function returns for its path", ok, "path %s writes %s after %d registrations", traceOf(p), segsString(out), nreg)
+		default:
+			if part != "P-TOKEN" {
+				continue
+			}
+			t.note("null / unknown token types write nothing", len(out) == 0 && nreg == 0, "path %s (type %q) writes %s", traceOf(p), typ, segsString(out))
+		}
+		if !isLit || part != "T-LITFMT" {
+			if typ != tt("packageToken") && nreg > 0 && part == "P-TOKEN" {
+				t.note("only package tokens register an import", false, "path %s (type %q) calls the registration function", traceOf(p), typ)
+			}
+		}
+	}
+	if part == "T-LITFMT" {
+		for _, dt := range documentedLitTypes {
+			o.req(covered[dt], fn, "documented literal type "+dt+" is supported", f.Pos(), "README: Lit supports bool, string, int, complex128, float64, float32, int8..int64, uint..uint64, uintptr, complex64")
+		}
+		t.require("the only panic is the documented one for an unsupported literal type", "float64: \".0\" is appended only if the text has neither '.' nor 'e'", "float64: the bare text is written only if it has a '.' or an 'e'",
+			"a rune literal is the content quoted by strconv.QuoteRune* / %q", "a byte literal is byte(<numeric or quoted value of the content>)")
+	} else {
+		t.require("`default` is written followed by a colon", "an identifier token writes exactly its name", "a package token writes exactly what the registration function returns for its path")
+	}
+	t.flush()
+	return o.list
+}
+
+// ---------------------------------------------------------------------------------------------
+// Builders: what a construct appends, in all three forms (P-API-FORMS, P-LITCTOR, T-KEYWORDS,
+// T-TOKCONTENT), read off the paths of the builder functions with every helper inlined.
+
+type builtItem struct {
+	deep    string
+	term    *T
+	path    *PXPath
+	isToken bool
+	typ     string // token type constant, if a token
+	content *T
+}
+
+type buildResult struct {
+	ok        bool
+	why       string
+	items     []builtItem // elements appended (in order)
+	callbacks []string
+	ncb       int
+}
+
+var builderCache = map[*Ctx]map[*ssa.Function]*buildResult{}
+
+func elemsOf(t *T) ([]*T, bool) {
+	if t == nil {
+		return nil, false
+	}
+	if t.Nil {
+		return nil, true
+	}
+	if t.HasEl {
+		return t.Elems, true
+	}
+	return nil, false
+}
+
+// statementForm evaluates a *Statement method: it must append to its receiver (once) and return it.
+func (c *Ctx) statementForm(f *ssa.Function) *buildResult {
+	if builderCache[c] == nil {
+		builderCache[c] = map[*ssa.Function]*buildResult{}
+	}
+	if r, ok := builderCache[c][f]; ok {
+		return r
+	}
+	res := &buildResult{ok: true}
+	builderCache[c][f] = res
+	paths, trunc := c.Paths(f, PXConfig{MaxDepth: 4, MaxVisits: 2})
+	if trunc || len(paths) == 0 {
+		res.ok, res.why = false, fmt.Sprintf("%d paths, truncated %v", len(paths), trunc)
+		return res
+	}
+	for pi, p := range paths {
+		if p.End != "return" || len(p.Ret) != 1 {
+			res.ok, res.why = false, "a path does not return normally ("+p.End+")"
+			return res
+		}
+		if p.Ret[0].String() != "recv" {
+			res.ok, res.why = false, "returns "+p.Ret[0].String()+" instead of its receiver"
+			return res
+		}
+		var items []builtItem
+		ncb := 0
+		var cbs []string
+		nst := 0
+		for _, e := range p.Events {
+			switch e.Kind {
+			case "store":
+				if e.Recv.String() != "recv" {
+					res.ok, res.why = false, "stores to "+e.Recv.String()
+					return res
+				}
+				nst++
+				v := e.Args[0]
+				if v.Op != "append" || len(v.A) != 2 || v.A[0].String() != "recv" {
+					res.ok, res.why = false, "the receiver is assigned "+p.Deep(v)+" instead of append(*s, …)"
+					return res
+				}
+				if els, ok := elemsOf(v.A[1]); ok {
+					for _, el := range els {
+						items = append(items, c.builtItemOf(p, el))
+					}
+				} else {
+					// append(*s, params...): the caller's items, verbatim
+					items = append(items, builtItem{deep: p.Deep(v.A[1]) + "...", term: v.A[1], path: p})
+				}
+			case "funcvalue":
+				ncb++
+				var as []string
+				for _, a := range e.Args {
+					as = append(as, p.Deep(a))
+				}
+				cbs = append(cbs, e.Name+"("+strings.Join(as, ",")+")")
+				if nst > 0 {
+					res.ok, res.why = false, "the callback runs after the append"
+					return res
+				}
+			case "mapupdate", "write", "go", "defer", "send":
+				res.ok, res.why = false, "unexpected effect "+e.Kind+" "+e.Name
+				return res
+			}
+		}
+		if nst > 1 {
+			res.ok, res.why = false, fmt.Sprintf("%d stores to the receiver", nst)
+			return res
+		}
+		if nst == 0 && ncb == 0 {
+			res.ok, res.why = false, "neither appends to the receiver nor hands it to a callback"
+			return res
+		}
+		if pi == 0 {
+			res.items, res.callbacks, res.ncb = items, cbs, ncb
+		} else {
+			// all paths must agree
+			if len(items) != len(res.items) || ncb != res.ncb {
+				res.ok, res.why = false, "paths differ in what they append"
+				return res
+			}
+			for i := range items {
+				if items[i].deep != res.items[i].deep {
+					res.ok, res.why = false, "paths differ in what they append"
+					return res
+				}
+			}
+		}
+	}
+	return res
+}
+
+func (c *Ctx) builtItemOf(p *PXPath, el *T) builtItem {
+	bi := builtItem{deep: p.Deep(el), term: el, path: p}
+	if el.Op == "struct" && el.Aux == "jen.token" {
+		bi.isToken = true
+		if tv, ok := el.Fields["typ"]; ok {
+			bi.typ, _ = tv.strVal()
+		}
+		bi.content = el.Fields["content"]
+	}
+	return bi
+}
+
+// freshStatementContent: t is a statement allocated on this path; returns the deep strings of its items.
+func freshStatementContent(p *PXPath, t *T) ([]string, bool) {
+	if t == nil || t.Op != "alloc" {
+		return nil, false
+	}
+	v, ok := p.Mem["o"+strconv.Itoa(t.Obj)]
+	if !ok {
+		return nil, false
+	}
+	var out []string
+	var walk func(v *T) bool
+	walk = func(v *T) bool {
+		if els, ok := elemsOf(v); ok {
+			for _, e := range els {
+				out = append(out, p.Deep(e))
+			}
+			return true
+		}
+		if v.Op == "append" && len(v.A) == 2 {
+			if !walk(v.A[0]) {
+				return false
+			}
+			if els, ok := elemsOf(v.A[1]); ok {
+				for _, e := range els {
+					out = append(out, p.Deep(e))
+				}
+			} else {
+				out = append(out, p.Deep(v.A[1])+"...")
+			}
+			return true
+		}
+		return false
+	}
+	if !walk(v) {
+		return nil, false
+	}
+	return out, true
+}
+
+func deepList(items []builtItem) []string {
+	var out []string
+	for _, it := range items {
+		out = append(out, it.deep)
+	}
+	return out
+}
+
+func sameList(a, b []string) bool {
+	if len(a) != len(b) {
+		return false
+	}
+	for i := range a {
+		if a[i] != b[i] {
+			return false
+		}
+	}
+	return true
+}
+
+func rulePXAPIForms(c *Ctx) []Obligation {
+	o := c.newObs("P-API-FORMS")
+	sm := methodsOf(c, "Statement")
+	gm := methodsOf(c, "Group")
+	var names []string
+	for n := range sm {
+		if !nonConstructs[n] {
+			names = append(names, n)
+		}
+	}
+	sort.Strings(names)
+	c.stats["constructs"] = len(names)
+	for _, n := range names {
+		s := sm[n]
+		sr := c.statementForm(s)
+		o.req(sr.ok, fname(s), "Statement form appends to its receiver in place, once, and returns it", s.Pos(), "%s", sr.why)
+		want := deepList(sr.items)
+		// ---- function form
+		pf := c.jenFunc(n)
+		if pf == nil {
+			o.add(Violated, "jen."+n, "package-function form exists", s.Pos(), true, "construct %s has no package function", n)
+		} else {
+			okSig := sameParams(pf.Signature, s.Signature)
+			paths, trunc := c.Paths(pf, PXConfig{MaxDepth: 5, MaxVisits: 2})
+			ok := okSig && !trunc && len(paths) > 0 && sr.ok
+			why := ""
+			if !okSig {
+				why = "parameters differ from the Statement method's"
+			} else if !sr.ok {
+				why = "the Statement form itself is not in order: " + sr.why
+			}
+			for _, p := range paths {
+				if !ok {
+					break
+				}
+				if p.End != "return" || len(p.Ret) != 1 {
+					ok, why = false, "does not return normally"
+					break
+				}
+				got, fresh := freshStatementContent(p, p.Ret[0])
+				ncb := 0
+				for _, e := range p.Events {
+					switch e.Kind {
+					case "funcvalue":
+						ncb++
+					case "store", "mapupdate", "write":
+						ok, why = false, "has the effect "+e.Kind+" on "+fmt.Sprint(e.Recv)
+					}
+				}
+				if !fresh {
+					ok, why = false, "does not return a freshly built statement ("+p.Ret[0].String()+")"
+				} else if !sameList(got, want) || ncb != sr.ncb {
+					ok, why = false, fmt.Sprintf("builds %v where the Statement form appends %v", got, want)
+				}
+			}
+			o.req(ok, fname(pf), "function form returns a new statement holding exactly what the Statement form appends for the same arguments", pf.Pos(), "%s", why)
+		}
+		// ---- Group form
+		g := gm[n]
+		if g == nil {
+			o.add(Violated, "(*jen.Group)."+n, "Group form exists", s.Pos(), true, "construct %s has no *Group method", n)
+			continue
+		}
+		okSig := sameParams(g.Signature, s.Signature)
+		paths, trunc := c.Paths(g, PXConfig{MaxDepth: 5, MaxVisits: 2})
+		ok := okSig && !trunc && len(paths) > 0 && sr.ok
+		why := ""
+		if !okSig {
+			why = "parameters differ from the Statement method's"
+		} else if !sr.ok {
+			why = "the Statement form itself is not in order: " + sr.why
+		}
+		for _, p := range paths {
+			if !ok {
+				break
+			}
+			if p.End != "return" || len(p.Ret) != 1 {
+				ok, why = false, "does not return normally"
+				break
+			}
+			got, fresh := freshStatementContent(p, p.Ret[0])
+			nst, ncb := 0, 0
+			for _, e := range p.Events {
+				switch e.Kind {
+				case "funcvalue":
+					ncb++
+				case "store":
+					nst++
+					v := e.Args[0]
+					okApp := e.Recv.String() == "recv.items" && v.Op == "append" && len(v.A) == 2 && v.A[0].String() == "recv.items"
+					if okApp {
+						els, known := elemsOf(v.A[1])
+						okApp = known && len(els) == 1 && els[0].String() == p.Ret[0].String()
+					}
+					if !okApp {
+						ok, why = false, "stores "+p.Deep(v)+" into "+e.Recv.String()+" instead of appending the new statement to the group's items"
+					}
+				case "mapupdate", "write":
+					ok, why = false, "has the effect "+e.Kind
+				}
+			}
+			if !ok {
+				break
+			}
+			switch {
+			case !fresh:
+				ok, why = false, "does not return a freshly built statement ("+p.Ret[0].String()+")"
+			case nst != 1:
+				ok, why = false, fmt.Sprintf("appends to the group %d times on a path", nst)
+			case !sameList(got, want) || ncb != sr.ncb:
+				ok, why = false, fmt.Sprintf("builds %v where the Statement form appends %v", got, want)
+			}
+		}
+		o.req(ok, fname(g), "Group form builds the same new statement, appends it to the group exactly once and returns it", g.Pos(), "%s", why)
+	}
+	for n := range gm {
+		if !nonConstructs[n] && sm[n] == nil {
+			o.add(Violated, "(*jen.Group)."+n, "has a Statement form", gm[n].Pos(), true, "Group method without the corresponding Statement method")
+		}
+	}
+	return o.list
+}
+
+// rulePXLitCtor: what the hand-written token constructors append.
+func rulePXLitCtor(c *Ctx) []Obligation {
+	o := c.newObs("P-LITCTOR")
+	sm := methodsOf(c, "Statement")
+	tt := func(n string) string { return c.tokenTypeConst(n) }
+	type exp struct {
+		typ     string
+		content string // expected content term ("p0", a quoted constant, "cb" for the callback's result, "" for none)
+	}
+	want := map[string][]exp{
+		"Lit": {{"literalToken", "p0"}}, "LitFunc": {{"literalToken", "cb"}},
+		"LitRune": {{"literalRuneToken", "p0"}}, "LitRuneFunc": {{"literalRuneToken", "cb"}},
+		"LitByte": {{"literalByteToken", "p0"}}, "LitByteFunc": {{"literalByteToken", "cb"}},
+		"Id": {{"identifierToken", "p0"}}, "Op": {{"operatorToken", "p0"}},
+		"Dot": {{"delimiterToken", `"."`}, {"identifierToken", "p0"}}, "Line": {{"layoutToken", `"\n"`}},
+		"Null": {{"nullToken", ""}}, "Empty": {{"!null", `""`}},
+	}
+	var names []string
+	for n := range want {
+		names = append(names, n)
+	}
+	sort.Strings(names)
+	for _, n := range names {
+		f := sm[n]
+		if f == nil {
+			o.add(Violated, "(*jen.Statement)."+n, "constructor present", token.NoPos, true, "not found")
+			continue
+		}
+		r := c.statementForm(f)
+		if !r.ok {
+			o.add(Violated, fname(f), "appends its token(s)", f.Pos(), true, "%s", r.why)
+			continue
+		}
+		ok := len(r.items) == len(want[n])
+		why := fmt.Sprintf("appends %v", deepList(r.items))
+		for i := 0; ok && i < len(want[n]); i++ {
+			it, e := r.items[i], want[n][i]
+			if !it.isToken {
+				ok = false
+				break
+			}
+			if e.typ == "!null" {
+				ok = it.typ != tt("nullToken") && it.typ != tt("packageToken") && it.typ != ""
+			} else if it.typ != tt(e.typ) {
+				ok = false
+			}
+			cs := ""
+			if it.content != nil {
+				cs = it.content.String()
+			}
+			switch e.content {
+			case "":
+				if it.content != nil && !it.content.Nil {
+					ok = false
+				}
+			case "cb":
+				// the result of calling the callback parameter, nothing else
+				if it.content == nil || it.content.Op != "call" || !strings.HasPrefix(it.content.Aux, "funcvalue:p0") || r.ncb != 1 {
+					ok = false
+				}
+			default:
+				if cs != e.content {
+					ok = false
+				}
+			}
+		}
+		o.req(ok, fname(f), "appends exactly its token(s), holding the caller's value unmodified", f.Pos(), "%s", why)
+	}
+	// Qual: a group of the package token and the identifier
+	if f := sm["Qual"]; f != nil {
+		r := c.statementForm(f)
+		ok := r.ok && len(r.items) == 1
+		if ok {
+			d := r.items[0].deep
+			ok = strings.Contains(d, `{content:p0,typ:"`+tt("packageToken")+`"}`) && strings.Contains(d, `{content:p1,typ:"`+tt("identifierToken")+`"}`) && strings.Index(d, "content:p0") < strings.Index(d, "content:p1") && strings.Contains(d, `separator:"."`)
+		}
+		o.req(ok, fname(f), "Qual appends a group of the package token (path) and the identifier (name), joined by a dot", f.Pos(), "appends %v %s", deepList(r.items), r.why)
+	}
+	return o.list
+}
+
+// ---------------------------------------------------------------------------------------------
+// T-KEYWORDS / T-TOKCONTENT from what the builders append
+
+// allBuiltTokens: every token any *Statement method appends (also inside appended groups).
+func (c *Ctx) allBuiltTokens() []struct {
+	fn      *ssa.Function
+	typ     string
+	content *T
+	ok      bool
+} {
+	var out []struct {
+		fn      *ssa.Function
+		typ     string
+		content *T
+		ok      bool
+	}
+	sm := methodsOf(c, "Statement")
+	var names []string
+	for n := range sm {
+		names = append(names, n)
+	}
+	sort.Strings(names)
+	for _, n := range names {
+		if nonConstructs[n] {
+			continue
+		}
+		f := sm[n]
+		r := c.statementForm(f)
+		if !r.ok {
+			continue
+		}
+		var walk func(p *PXPath, t *T, depth int)
+		walk = func(p *PXPath, t *T, depth int) {
+			if t == nil || depth > 4 {
+				return
+			}
+			switch {
+			case t.Op == "struct" && t.Aux == "jen.token":
+				typ, okT := "", false
+				if tv, ok := t.Fields["typ"]; ok {
+					typ, okT = tv.strVal()
+				}
+				out = append(out, struct {
+					fn      *ssa.Function
+					typ     string
+					content *T
+					ok      bool
+				}{f, typ, t.Fields["content"], okT})
+			case t.Op == "struct":
+				for _, v := range t.Fields {
+					walk(p, v, depth+1)
+				}
+			case t.HasEl:
+				for _, e := range t.Elems {
+					walk(p, e, depth+1)
+				}
+			case t.Op == "alloc":
+				k := "o" + strconv.Itoa(t.Obj)
+				if v, ok := p.Mem[k]; ok {
+					walk(p, v, depth+1)
+				}
+				for key, v := range p.Mem {
+					if strings.HasPrefix(key, k+".") {
+						walk(p, v, depth+1)
+					}
+				}
+			}
+		}
+		for _, it := range r.items {
+			walk(it.path, it.term, 0)
+		}
+	}
+	return out
 }
